@@ -149,6 +149,17 @@ class Seq:
         self.ln, self.elem, self.label = ln, elem, label
 
 
+class MSeq(Seq):
+    """mutable symbolic list of ints: z3 Int length + z3 Array(Int -> Int) content (list built by a comprehension and then updated in place)"""
+
+    def __init__(self, ln, arr, label=None):
+        self.ln, self.arr, self.label = ln, arr, label
+        self.elem = lambda j: SV(z3.Select(self.arr, j if isinstance(j, z3.ExprRef) else z3.IntVal(j)), "int")
+
+    def store(self, idx, v):
+        self.arr = z3.Store(self.arr, to_z(idx), to_z(v))
+
+
 class FiltSeq:
     """[x for x in <Seq> if P(x)]: the sub-sequence of a symbolic sequence selected by a predicate on positions"""
 
